@@ -605,8 +605,10 @@ void enum_ranges(std::string const &ename, std::vector<unsigned> pts = {})
       // size() of an enum range: the statement spells the size clause out for integer ranges; for an enum range the number
       // of enumerators of a closed sub-range always fits, and "the value of size()" is what the property observes - judged
       // (an enum that fills its underlying type: the whole range has one enumerator more than size()'s type can hold)
-      if (static_cast<i128>(en) - s + 1 > static_cast<i128>(std::numeric_limits<decltype(r.size())>::max()))
-        VF_COUNT("enum_range/size/not-representable-not-judged");
+      // (size() is not CALLED for an enum that fills its underlying type: an implementation may compute it from
+      // fcppt::enum_::size<E>, which does not exist for such an enum - a harness that does not compile decides nothing)
+      if constexpr (static_cast<i128>(N) > static_cast<i128>(std::numeric_limits<enum_size_type>::max()))
+        VF_COUNT("enum_range/size/full-width-enum-not-judged");
       else
       {
         VF_COUNT("enum_range/size/judged");
@@ -624,8 +626,9 @@ void enum_ranges(std::string const &ename, std::vector<unsigned> pts = {})
       VF_COUNT("enum_range/make_range_start");
       for (walk w : all_walks)
         judge_arith_sequence(e + "/make_range_start/sequence", w, r, s, static_cast<i128>(N) - s, 16, conv);
-      if (static_cast<i128>(N) - s <= static_cast<i128>(std::numeric_limits<decltype(r.size())>::max()) && static_cast<i128>(r.size()) != static_cast<i128>(N) - s)
-        vf::violation(e + "/make_range_start/size", "mismatch", "size() is " + s128(static_cast<i128>(r.size())) + " for " + std::to_string(N - s) + " enumerators");
+      if constexpr (static_cast<i128>(N) <= static_cast<i128>(std::numeric_limits<decltype(r.size())>::max()))
+        if (static_cast<i128>(r.size()) != static_cast<i128>(N) - s)
+          vf::violation(e + "/make_range_start/size", "mismatch", "size() is " + s128(static_cast<i128>(r.size())) + " for " + std::to_string(N - s) + " enumerators");
     }
     if (s > 0)
     {
